@@ -82,13 +82,16 @@ tensor2d_t learner_t::evaluate(const dataset_t& dataset, indices_cmap_t samples,
 {
     auto errors_values = tensor2d_t{2, samples.size()};
 
+    // NB: predict outside the loop below: the prediction can use the dataset's thread pool as well
+    //     and waiting for nested tasks from all its workers dead-locks!
+    const auto outputs = predict(dataset, samples);
+
     const auto iterator = targets_iterator_t{dataset, samples};
     iterator.loop(
         [&](const tensor_range_t& range, const size_t, const tensor4d_cmap_t targets)
         {
-            const auto outputs = predict(dataset, samples.slice(range));
-            loss.error(targets, outputs, errors_values.tensor(0).slice(range));
-            loss.value(targets, outputs, errors_values.tensor(1).slice(range));
+            loss.error(targets, outputs.slice(range), errors_values.tensor(0).slice(range));
+            loss.value(targets, outputs.slice(range), errors_values.tensor(1).slice(range));
         });
 
     return errors_values;
